@@ -4,6 +4,6 @@ CONSTANTS
   Cap = 1
   L = 2
   Periodic = TRUE
-  Warm = 0
+  Warms = {0}
 CONSTRAINT Leaf
 CHECK_DEADLOCK FALSE
